@@ -1,0 +1,93 @@
+//go:build verif
+
+package consensus
+
+// Verification hooks for the proof-of-work code (property C13 of the /verif
+// framework). This file only re-exports unexported functions; it adds no
+// behaviour and is compiled only with `-tags verif`.
+
+import (
+	"math/big"
+	"time"
+
+	"go.sia.tech/core/types"
+)
+
+// VerifWorkFromBytes builds a Work from its 32-byte big-endian representation.
+func VerifWorkFromBytes(n [32]byte) Work { return Work{n} }
+
+// VerifWorkBytes returns the 32-byte big-endian representation of w.
+func VerifWorkBytes(w Work) [32]byte { return w.n }
+
+// VerifWorkAdd re-exports Work.add.
+func VerifWorkAdd(w, v Work) Work { return w.add(v) }
+
+// VerifWorkSub re-exports Work.sub.
+func VerifWorkSub(w, v Work) Work { return w.sub(v) }
+
+// VerifWorkMul64 re-exports Work.mul64.
+func VerifWorkMul64(w Work, v uint64) Work { return w.mul64(v) }
+
+// VerifWorkDiv64 re-exports Work.div64.
+func VerifWorkDiv64(w Work, v uint64) Work { return w.div64(v) }
+
+// VerifWorkMin re-exports Work.min.
+func VerifWorkMin(w, v Work) Work { return w.min(v) }
+
+// VerifWorkMax re-exports Work.max.
+func VerifWorkMax(w, v Work) Work { return w.max(v) }
+
+// VerifInvTarget re-exports invTarget.
+func VerifInvTarget(n [32]byte) [32]byte { return invTarget(n) }
+
+// VerifIntToTarget re-exports intToTarget.
+func VerifIntToTarget(i *big.Int) types.BlockID { return intToTarget(i) }
+
+// VerifAddTarget re-exports addTarget.
+func VerifAddTarget(x, y types.BlockID) types.BlockID { return addTarget(x, y) }
+
+// VerifMulTargetFrac re-exports mulTargetFrac.
+func VerifMulTargetFrac(x types.BlockID, n, d int64) types.BlockID { return mulTargetFrac(x, n, d) }
+
+// VerifUpdateTotalWork re-exports updateTotalWork.
+func VerifUpdateTotalWork(s State) (Work, types.BlockID) { return updateTotalWork(s) }
+
+// VerifUpdateOakTime re-exports updateOakTime.
+func VerifUpdateOakTime(s State, blockTimestamp, parentTimestamp time.Time) time.Duration {
+	return updateOakTime(s, blockTimestamp, parentTimestamp)
+}
+
+// VerifUpdateOakTarget re-exports updateOakTarget.
+func VerifUpdateOakTarget(s State) types.BlockID { return updateOakTarget(s) }
+
+// VerifUpdateOakWork re-exports updateOakWork.
+func VerifUpdateOakWork(s State) (Work, types.BlockID) { return updateOakWork(s) }
+
+// VerifAdjustTarget re-exports adjustTarget.
+func VerifAdjustTarget(s State, blockTimestamp, targetTimestamp time.Time) types.BlockID {
+	return adjustTarget(s, blockTimestamp, targetTimestamp)
+}
+
+// VerifAdjustDifficultyV2 re-exports adjustDifficultyV2.
+func VerifAdjustDifficultyV2(s State, blockTimestamp time.Time) Work {
+	return adjustDifficultyV2(s, blockTimestamp)
+}
+
+// VerifAdjustDifficultyFinalCut re-exports adjustDifficultyFinalCut.
+func VerifAdjustDifficultyFinalCut(s State, blockTimestamp time.Time) Work {
+	return adjustDifficultyFinalCut(s, blockTimestamp)
+}
+
+// VerifAdjustDifficulty re-exports adjustDifficulty.
+func VerifAdjustDifficulty(s State, blockTimestamp, targetTimestamp time.Time) (Work, types.BlockID) {
+	return adjustDifficulty(s, blockTimestamp, targetTimestamp)
+}
+
+// VerifMedianTimestamp re-exports State.medianTimestamp.
+func VerifMedianTimestamp(s State) time.Time { return s.medianTimestamp() }
+
+// VerifNumTimestamps re-exports State.numTimestamps.
+func VerifNumTimestamps(s State) int { return s.numTimestamps() }
+
+// VerifChildHeight re-exports State.childHeight.
+func VerifChildHeight(s State) uint64 { return s.childHeight() }
